@@ -12,92 +12,178 @@ Definition show_fres (r : fres) : string :=
   end.
 Definition check (rs : list rune) : string := digest (show_fres (format_res rs)).
 Definition full (rs : list rune) : string := show_fres (format_res rs).
-Eval vm_compute in ("<<<M165>>>" ++ check (runes_of_ascii "packet falsey { char[7
-    ]
-Foo @calculatedFrom( ""CRC32"" ) , @tag(
-    //
-    10)	u8 Packet`" ++ [233]%N ++ runes_of_ascii "` ,repeat  stringy
+Eval vm_compute in ("<<<M1683>>>" ++ check (runes_of_ascii "
+root
+
+    packet
+
+A
+
+{ }  packet  int	//
+  {
+@calculatedFrom( ""a\""b"" )	u32 
+x_y_z
+	@lengthOf(
+u	)	,repeat _x
+charz
+	`tab	here`
 ,
-@lengthOf( // a // b
-float)tag { repeat
-    u8x {
-int16 charz@lengthOf(trueish ) , //	t
-repeat  string calculatedFrom,
-charz @calculatedFrom(  ""a\""b""
-)	`line1
-line2`
-,
-},u64
-    MetaDataX @calculatedFrom( """ ++ [128512]%N ++ runes_of_ascii """
-    ) `" ++ [233]%N ++ runes_of_ascii "`
-    ,rootA
-    // packet A { u8 x, }
+stringy
+stringy ,@calculatedFrom( """ ++ [28040; 24687]%N ++ runes_of_ascii """
+)repeat  
+  // `tick` ""quote"" 'q'
+  // a // b
+	falsey
     {
-    repeat	u64 BodyLength
-`" ++ [233]%N ++ runes_of_ascii "` , pack @calculatedFrom( //x
-""{,}"" )
-    `" ++ [28040; 24687; 31867; 22411]%N ++ runes_of_ascii "` ,repeat // c
-x charz,
-},
-    // a // b
-    char[] packetx, }	, // `tick` ""quote"" 'q'
-calculatedFrom , u x_y_z
-,repeat	int	i64_ ,@leftPad (
-    ' '
-)u32 T @calculatedFrom( ""{,}"" )
-, repeat
-    metadata , } root packet
-chars
-{ char[	65535
-]  pack @lengthOf( As ) `tab	here` , char[
-255] msg_type `// not a comment`
-    ,@calculatedFrom(
-    ""// no comment"" ) @tag( //	t
-0 ) @tag(10 ) repeat Header {
+zchar[ 255 ] 
+As	@lengthOf( BodyLength  )
+,match  Z9_
+	as
+
+As	{ [0123456789
+,
+
+    007
+,
+
+""a\\""
+    , ""\" ++ [233]%N ++ runes_of_ascii """// 50% %s
+	  ,""x y"" ,
+	3] : i8i8
+
+,}
+
+, 
+}  ,
+f32a
+
+    { match 
+leftPad
+	as
+    crc	{[ 
+""\" ++ [233]%N ++ runes_of_ascii """
+	,	// " ++ [128512]%N ++ runes_of_ascii " emoji
+	""packet""
+,65535
+
+    , ""`tick`"",
+""`tick`"" 
+, ""a\\""
+    ,	""""
+    , 
+    //x
+  ""// no comment""
+	    // @lengthOf(
+
+  //	t
+
+  ]	// 50% %s
+:
+calculatedFrom
+""packet""
+	:
+        // c
+	//
+	Packet// c
+, [ //x
+4294967296,
+
+    // c
+  4294967296 , //x
+	""{,}""
+    // " ++ [128512]%N ++ runes_of_ascii " emoji
+	// `tick` ""quote"" 'q'
+      ] :
+
+    T 
+[0
+    ,0
+, """ ++ [233]%N ++ runes_of_ascii "t" ++ [233]%N ++ runes_of_ascii """
+	,
+
+    42
+	,
+
+    ""a	b"" , 7]  :tag  3 :	As
+, }
+
+,
     char[]
-// @lengthOf(
-// " ++ [27880; 37322]%N ++ runes_of_ascii "
-i64_,repeat T//x
-`` ,match uint8x	as i64_ {
-00// `tick` ""quote"" 'q'
-: _x ,	65535: //
-Z9_,
-""1""
-: u8x ,
-007 : Z9_
-, 255
-:
-matchKey
-""1"" :
-crc , } , } ,
-    @calculatedFrom(	""packet""	) match int as x_y_z{ 0123456789 :	Logon
-    // @lengthOf(
-    ,
+	matchKey `crlf
+line` ,	// packet A { u8 x, }
+  }  ,
+repeat
+    zchar[ 
     //	t
-    [ 0123456789, ""it's"" ]
-:
-int
-    , [""a	b"" , ""CRC32"" , 0, 4294967296 , """"	] :
-pack , 0 : u , } , match // @lengthOf(
-string_ as
-int
-{ 0: repeatCount [ ""abc""
-    ] : // " ++ [27880; 37322]%N ++ runes_of_ascii "
-float 007: msg_type , [
-    ""a\""b""	]:
-charz , } , i16 MetaDataX`say ""hi""`, repeat u `tab	here` , repeat falsey  { repeat i8 lengthOf `a\` ,
-    repeatCount@lengthOf( o)
-    `{ , }`,}, }packet rootA
-    { calculatedFrom//	t
-@calculatedFrom( ""x y"") ,
-char Pad @calculatedFrom( ""a\""b"" ) `" ++ [233]%N ++ runes_of_ascii "`
-    , @leftPad
-( '\x00' )	repeat float64 tag ,
+    4294967296
+
+]
+    As
+	, rootA
+
+    T ,
+        // @lengthOf(
+    // " ++ [128512]%N ++ runes_of_ascii " emoji
+    @tag(65535)@calculatedFrom(
+    ""{,}""  // a // b
+	)  
+  /// triple
+repeat 	 // @lengthOf(
+    i16 Z9_ 
+`{ , }`,@calculatedFrom( ""{,}""
+) 
+len {match	// trailing space 
+		u128 //
+as	zchar  {  [00	,
+    4294967296
+
+    ]  // 50% %s
+  :  charz
+
+    , ""a\\"" :  i8i8,""" ++ [233]%N ++ runes_of_ascii "t" ++ [233]%N ++ runes_of_ascii """
+	:
+
+    x_y_z  ,	65535 
+:	uint8x	,  } 
+,
+
+    repeat
+	leftPad
+	{
+f32 u128 @lengthOf( As
+
+    ),
+	body
+    `" ++ [28040; 24687; 31867; 22411]%N ++ runes_of_ascii "`  ,	rootA 	 // @lengthOf(
+  Pad 
+, } 
+,char[ 00
+
+    ]msg_type
+	`say ""hi""` // `tick` ""quote"" 'q'
+  , 
+      /// triple
+
+	zchar[ 	 // @lengthOf(
+	  0123456789
+]
+    falsey ,
     // " ++ [27880; 37322]%N ++ runes_of_ascii "
-    @calculatedFrom( ""1"") repeat Foo ,  } // " ++ [27880; 37322]%N)).
+    	}
+
+    ,
+repeat int
+
+    `a\`  ,
+}
+    root 
+packet
+
+f32a
+{ int8 Header `` ,}")).
 Eval vm_compute in ("<<<M382>>>" ++ check (runes_of_ascii "options {
-	StringPrefixLenType = u16;
-	ArrayPrefixLenType = u16;
+    StringPrefixLenType = u16;
+    ArrayPrefixLenType = u16;
 }
 
 packet SampleBinary {
@@ -110,12 +196,12 @@ packet SampleBinary {
         4 : RiskControlRequest,
         5 : RiskControlResponse,
     },
-        @calculatedFrom(""CRC32"")
+    @calculatedFrom(""CRC32"")
     u32 Ckecksum `" ++ [26657; 39564; 21644]%N ++ runes_of_ascii "`,
 }
 
 packet Logon {
-     @leftPad('0')
+    @leftPad('0')
     char[10] UserName `" ++ [29992; 25143; 21517]%N ++ runes_of_ascii "`,
     string Password `" ++ [23494; 30721]%N ++ runes_of_ascii "`,
     uint64 ClientId `" ++ [23458; 25143; 31471]%N ++ runes_of_ascii "ID`,
@@ -123,7 +209,7 @@ packet Logon {
 }
 
 packet Logout {
-      @rightPad('0')
+    @rightPad('0')
     char[10] UserName `" ++ [29992; 25143; 21517]%N ++ runes_of_ascii "`,
     uint64 ClientId `" ++ [23458; 25143; 31471]%N ++ runes_of_ascii "ID`,
 }
@@ -142,10 +228,10 @@ packet RiskControlRequest {
     u32 Qty `" ++ [25968; 37327]%N ++ runes_of_ascii "`,
     repeat string ExtraInfo `" ++ [38468; 21152; 20449; 24687]%N ++ runes_of_ascii "`,
     repeat SubOrder {
-    		char[16] ClOrdID `" ++ [23376; 35746; 21333; 21495]%N ++ runes_of_ascii "`,
-    		u64 Price `" ++ [23376; 35746; 21333; 20215; 26684]%N ++ runes_of_ascii "`,
-    		u32 Qty `" ++ [23376; 35746; 21333; 25968; 37327]%N ++ runes_of_ascii "`,
-    	},
+        char[16] ClOrdID `" ++ [23376; 35746; 21333; 21495]%N ++ runes_of_ascii "`,
+        u64 Price `" ++ [23376; 35746; 21333; 20215; 26684]%N ++ runes_of_ascii "`,
+        u32 Qty `" ++ [23376; 35746; 21333; 25968; 37327]%N ++ runes_of_ascii "`,
+    },
 }
 
 packet RiskControlResponse {
@@ -159,909 +245,902 @@ packet Detail {
     string RuleName `" ++ [35268; 21017; 21517; 31216]%N ++ runes_of_ascii "`,
     u16 Code `" ++ [21407; 22240; 20195; 30721]%N ++ runes_of_ascii "`,
 }")).
-Eval vm_compute in ("<<<M1336>>>" ++ check (runes_of_ascii "// top
-options // c0a
-  // c0b
-{ // c1a
-  // c1b
-LittleEndian // c2
-= false
-    // c4
-; StringPrefixLenType =
-    // c7
-u8 // c8
-; // c9
-ArrayPrefixLenType
-    // c10
-= // c11
-u64 // c12
-; // c13
-FixedStringPadFromLeft // c14
-=
-    // c15
-false ; // c17a
-  // c17b
-FixedStringPadChar // c18
-= // c19
-' ' ; // c21a
-  // c21b
-} packet Reject // c24a
-  // c24b
-{
-    // c25
-repeat // c26
-char[ 4 // c28a
-  // c28b
-] // c29a
-  // c29b
-seqNo , string Px
-    // c33
-,
-    // c34
-} // c35
-root // c36
-packet // c37a
-  // c37b
-Trade { // c39a
-  // c39b
-@rightPad ( // c41a
-  // c41b
-'0' // c42a
-  // c42b
-) // c43a
-  // c43b
-char[ // c44a
-  // c44b
-2 ]
-    // c46
-msgKind // c47a
-  // c47b
-, // c48
-repeat // c49
-f64 price , // c52
-InAcct79 { // c54a
-  // c54b
-repeat // c55
-Reject // c56a
-  // c56b
-, // c57
-zchar[ // c58a
-  // c58b
-7 // c59
-] // c60
-OrderId , // c62
-} // c63
-,
-    // c64
-Reject // c65
-, // c66a
-  // c66b
-} // c67a
-  // c67b
-")).
-Eval vm_compute in ("<<<M1447>>>" ++ check (runes_of_ascii "options {
-    FixedStringPadFromLeft = true;
-    FixedStringPadChar = '0';
-}
-
-packet Leg {
-    repeat InSym93 {
-        zchar[3] Acct,
-        string Side2,
-        i32 Flags,
-        f32 Note,
-        i32 msgKind,
-    },
-    f64 Note,
-    uint16 Px,
-}
-
-packet Quote {
-    zchar[2] OrderId,
-}
-
-packet Ack {
-    repeat string lastPx,
-    zchar[4] price,
-    uint32 OrderId,
-    Quote,
-    int8 Acct,
-}
-
-packet Fill {
-    repeat Leg,
-    @rightPad('0')
-    char[11] Note,
-    f64 Px,
-    @rightPad('\x00')
-    char[5] Flags,
-    zchar[9] x,
-    string msgKind,
-}
-
-root packet Order {
-    Leg,
-    repeat Ack,
-    @rightPad('\x00')
-    char[3] Side2,
-    repeat char[1] seqNo,
-    u16 clOrdID,
-    match clOrdID as Body {
-        198 : Leg,
-        23 : Quote,
-        13 : Ack,
-        159 : Fill,
-    },
-    u32 venue @calculatedFrom(""CRC32""),
-}")).
-Eval vm_compute in ("<<<M1383>>>" ++ check (runes_of_ascii "// top
-options
-    // c0
-{ LittleEndian // c2a
-  // c2b
-= // c3
-true // c4a
-  // c4b
-;
-    // c5
-}
-    // c6
-packet
-    // c7
-Logon // c8a
-  // c8b
-{ // c9a
-  // c9b
-u8 // c10
-x
-    // c11
-, string
-    // c13
-user // c14a
-  // c14b
-, // c15a
-  // c15b
-} // c16
-packet // c17
-Logout // c18a
-  // c18b
-{ // c19
-u16 // c20a
-  // c20b
-reason
-    // c21
-, }
-    // c23
-packet // c24a
-  // c24b
-Empty
-    // c25
-{ }
-    // c27
-root // c28
-packet // c29a
-  // c29b
-Frame // c30a
-  // c30b
-{
-    // c31
-u16 MsgType // c33a
-  // c33b
-,
-    // c34
-u8
-    // c35
-BodyLen
-    // c36
-@lengthOf( Body
-    // c38
-) // c39
-, // c40a
-  // c40b
-u8 // c41a
-  // c41b
-flags , // c43
-Logon
-    // c44
-Body // c45
-, // c46a
-  // c46b
-u32
-    // c47
-trailer // c48
-, // c49a
-  // c49b
-} ")).
-Eval vm_compute in ("<<<M1363>>>" ++ check (runes_of_ascii "options {
-    StringPrefixLenType = u8;
-    ArrayPrefixLenType = u32;
-    FixedStringPadFromLeft = true;
-    FixedStringPadChar = ' ';
-}
-packet Leg {
-}
-packet Heartbeat {
-    zchar[6] msgKind,
-    @rightPad('0') char[3] Qty,
-    zchar[9] Side2,
-    i8 Acct,
-}
-packet Logout {
-    int8 x,
-}
-packet Order {
-    char[] Acct,
-    zchar[8] count,
-    u32 OrderId,
-    uint8 lastPx,
-    u16 clOrdID,
-    zchar[7] Note,
-}
-root packet Reject {
-    @leftPad(' ') char[8] Side2,
-    i8 clOrdID,
-    repeat f32 x,
-    u32 lastPx,
-    match lastPx as Body {
-        [30, 147] : Heartbeat,
-        134 : Leg,
-        183 : Logout,
-        40 : Order,
-    },
-    u16 Ref @calculatedFrom(""CRC32""),
-}
-")).
-Eval vm_compute in ("<<<M122>>>" ++ check (runes_of_ascii "
-packet u128  { // trailing space 
-string  Header `say ""hi""` , repeat crc
-f32a,
-    char[ 10
-    ] _x	,	@calculatedFrom( ""x y""	) repeat
-    //
-    charz	{
-    Logon @lengthOf(T) `crlf
-line`
-, repeat char[ // trailing space 
-0123456789 ]Z9_
-    `crlf
-line` ,
-    } ,
-    match Packet
-    as
+Eval vm_compute in ("<<<M326>>>" ++ check (runes_of_ascii "root packet Logon // packet A { u8 x, }
+{ calculatedFrom calculatedFrom
+    `it's` ,}  packet	calculatedFrom { @rightPad ( )string
+u // a // b
+@calculatedFrom(""packet"" )
+, @leftPad	('\x00')@tag( 1 ) @tag( 3 ) Packet{ string_	pack , As @calculatedFrom( ""a\""b"" ) `doc` , repeat
+msg_type
+    metadata ,
+// trailing space 
+//x
+} , _x
+`" ++ [233]%N ++ runes_of_ascii "` ,
+zchar[
+3
+]  MetaDataX // `tick` ""quote"" 'q'
+, repeat string asx
+`say ""hi""` ,
+    @lengthOf(
+trueish // " ++ [27880; 37322]%N ++ runes_of_ascii "
+)@lengthOf(uint8x
+    )	@rightPad
+    (
 // " ++ [128512]%N ++ runes_of_ascii " emoji
-// `tick` ""quote"" 'q'
-float // a // b
-{
-    1
-:  lengthOf }  ,  MetaDataX , match x as
-u8x { 10 :crc } , } root packet // `tick` ""quote"" 'q'
-Header // a // b
-{ @calculatedFrom( ""{,}"") a1
-    {  char[
-    // packet A { u8 x, }
-    007 ] pack ,stringy //x
-zchar
-    , repeat
-char[]
-    // " ++ [128512]%N ++ runes_of_ascii " emoji
-    o `it's`	, } , }")).
-Eval vm_compute in ("<<<M1348>>>" ++ check (runes_of_ascii "options {
-    LittleEndian = false;
+//
+)char[ 0123456789 ]T`" ++ [28040; 24687; 31867; 22411]%N ++ runes_of_ascii "` ,}/// triple
+packet x { @rightPad ( )
+    @calculatedFrom(// @lengthOf(
+""it's"" )
+@tag(
+    // " ++ [27880; 37322]%N ++ runes_of_ascii "
+    42 ) packetx
+falsey ,  char[ 1] body ,
+    @calculatedFrom( """ ++ [28040; 24687]%N ++ runes_of_ascii """ )tag @calculatedFrom( ""\" ++ [233]%N ++ runes_of_ascii """ ) ,Packet `100% of %d`/// triple
+,
+    //x
+    @tag(255 ) float32
+body @calculatedFrom(
+""abc""
+// packet A { u8 x, }
+// " ++ [27880; 37322]%N ++ runes_of_ascii "
+) ,
+char f32a , @lengthOf( u ) repeat
+    int32 a1	,@tag( 4294967296 )	f32 o @calculatedFrom(
+    ""\n"" )`tab	here` , char[] calculatedFrom  `two words` ,
+calculatedFrom @lengthOf(
+// packet A { u8 x, }
+// trailing space 
+matchKey ) , }
+")).
+Eval vm_compute in ("<<<M1355>>>" ++ check (runes_of_ascii "options {
+    LittleEndian = true;
+    StringPrefixLenType = u8;
     ArrayPrefixLenType = u8;
     FixedStringPadFromLeft = true;
     FixedStringPadChar = '0';
 }
-packet Heartbeat {
-    string lastPx,
-    uint8 Qty,
-    i64 Acct,
-    char[4] Ref,
+packet Logon {
+    repeat i8 Ref,
+    @rightPad('0') char[8] msgKind,
+    repeat InOrderid72 {
+        u8 Side2,
+        uint32 Qty,
+        repeat InPrice27 {
+            repeat char[4] Acct,
+            u64 sym,
+        },
+        zchar[4] clOrdID,
+        int16 lastPx,
+        InAcct22 {
+            repeat char[3] OrderId,
+        },
+    },
+    int64 Px,
 }
 packet Fill {
-    uint8 Ref,
-    Heartbeat,
-    f32 OrderId,
-    repeat f32 x,
+    uint16 Qty,
+    repeat char[1] Flags,
+    i8 Ref,
 }
-root packet Order {
-    zchar[2] OrderId,
-    zchar[2] Acct,
-    zchar[1] Note,
-    zchar[9] Qty,
-    string price,
-    string tag7,
-    u32 x,
-    match x as Body {
-        123 : Fill,
-        112 : Heartbeat,
+packet Logout {
+    @leftPad('0') char[3] x,
+    int8 f1,
+    Logon,
+    uint16 venue,
+    zchar[2] Px,
+}
+packet Reject {
+}
+root packet Leg {
+    Fill,
+    u16 msgKind,
+    match msgKind as Body {
+        [182, 83] : Fill,
+        199 : Reject,
+        137 : Logout,
+        35 : Logon,
     },
-    u32 seqNo @calculatedFrom(""CR\
+    u32 lastPx @calculatedFrom(""CR\
 C32""),
 }
 ")).
-Eval vm_compute in ("<<<M1377>>>" ++ check (runes_of_ascii "
-options
-{
-
-    LittleEndian
-
-= true
-;StringPrefixLenType
-
-= u64 ;
-
-    ArrayPrefixLenType
-	= u16
-    ; FixedStringPadFromLeft	= false; FixedStringPadChar=
-' ' ;
-}	packet
-
-    Logon
-{
-
-zchar[ 
-5
-    ] Side2
-,	}	root 
-packet
-	Logout
-    { repeat
-    i64
-Tail
-
-,  Logon	,repeat
-    i16 OrderId , 
-char[] venue,
-
-    uint64
-x
-,repeat
-    i16	count , u8 
-Flags , match Flags
-as
-
-    Body	{
-
-    25
-
-    :  Logon
-,
-	},  u16
-    Qty  @calculatedFrom( ""CRC32""
-)
-
-    ,
-
-} ")).
-Eval vm_compute in ("<<<M1646>>>" ++ check (runes_of_ascii "options {
-    float = char[]
-}// packet A { u8 x, }
-
-root packet Logon {
-    @tag(1)
-    // a // b
-    @calculatedFrom(""packet"")
-    zchar[3] Z9_,
-    @lengthOf(charz)
-    @calculatedFrom(""1"")
-    match roots as int {
-        ""a	b"" : MetaDataX,
+Eval vm_compute in ("<<<M1966>>>" ++ check (runes_of_ascii "// a // b
+root packet uint8x {
+    repeat x {
+        tag @calculatedFrom(""// no comment"") `it's`,
     },
-    @calculatedFrom(""a\""b"")
-    match asx as lengthOf {
-        """ ++ [128512]%N ++ runes_of_ascii """ : _x,
-        [255] : BodyLength,
-        3 : u8x,
-        0123456789 : T,
-    },
-    len @lengthOf(leftPad) `u8 x,`,
-}// @lengthOf(")).
-Eval vm_compute in ("<<<M1705>>>" ++ check (runes_of_ascii "  packet float
-    { 
-char[42
-] int	`say ""hi""`,
-
-    @tag(255 // packet A { u8 x, }
-  ) match 	 // a // b
-      stringy	as
-	x
-	{
-
-[
-00, 42
-]
-    :
-    i64_ 
-42: matchKey
-,
-    [
-	""1""
-
-,1,
-
-    42
-,	""" ++ [28040; 24687]%N ++ runes_of_ascii """	,""abc""
-,
-
-// a // b
     //x
+    A @calculatedFrom(""abc""),
+    uint64 zchar,
+    //	t
+    //	t
+    zchar[7] msg_type,
+    @calculatedFrom(""" ++ [28040; 24687]%N ++ runes_of_ascii """)
+    crc,
+    // `tick` ""quote"" 'q'
+    f32a Pad,
+    Header,// trailing space 
+    zchar[42] x @calculatedFrom(""\n"") `" ++ [28040; 24687; 31867; 22411]%N ++ runes_of_ascii "`,
+    string len,
+}
 
-1 	 // trailing space 
-  ] 
-:	//
-		roots
-	,65535	:trueish	,} , @calculatedFrom(
-""{,}"")  body@calculatedFrom(
-    """ ++ [28040; 24687]%N ++ runes_of_ascii """
-
-    ) ,
-	zchar[ 
-007 ]
-    lengthOf
-, }")).
-Eval vm_compute in ("<<<M74>>>" ++ check (runes_of_ascii "options{ u = 7
+packet falsey {
     // " ++ [27880; 37322]%N ++ runes_of_ascii "
-    roots
-=zchar[
-65535
-    ]
-msg_type = """ ++ [233]%N ++ runes_of_ascii "t" ++ [233]%N ++ runes_of_ascii """
-; x =false
-    } MetaData string_ { char[ // trailing space 
-42
-//x
-// " ++ [128512]%N ++ runes_of_ascii " emoji
+    i64_ @calculatedFrom(""{,}""),
+    repeat string chars,
+    // `tick` ""quote"" 'q'
+    zchar[7] calculatedFrom,
+    Header {
+        char u `crlf
+                line`,
+        repeat char[] tag `a\`,
+        Z9_ @lengthOf(T) `say ""hi""`,
+    },
+    /// triple
+    // " ++ [27880; 37322]%N ++ runes_of_ascii "
+    msg_type @calculatedFrom(""// no comment""),
+    @rightPad('\x00')
+    @lengthOf(asx)
+    falsey,
+}// a // b")).
+Eval vm_compute in ("<<<M1323>>>" ++ check (runes_of_ascii "// top
+options // c0
+{ // c1a
+  // c1b
+FixedStringPadChar
+    // c2
+= // c3
+'0'
+    // c4
+; // c5a
+  // c5b
+} packet // c7a
+  // c7b
+Q
+    // c8
+{ // c9a
+  // c9b
+zchar[ // c10a
+  // c10b
+4 // c11a
+  // c11b
+] // c12
+z // c13a
+  // c13b
+, // c14
+@rightPad // c15
+( // c16a
+  // c16b
+'\x00' // c17
+) char[ 3 // c20
 ]
-i8i8 `" ++ [28040; 24687; 31867; 22411]%N ++ runes_of_ascii "`	, u8
-    x_y_z
-, packetx lengthOf``
-    // " ++ [27880; 37322]%N ++ runes_of_ascii "
-    ,
-T Header `line1
-line2` ,
-char[] // " ++ [27880; 37322]%N ++ runes_of_ascii "
-u8x `two words` ,}packet
-float //x
-{
-    calculatedFrom
-    ,
-@rightPad ( '0'
-) char[
-    3
-] u128 , } 	 ")).
-Eval vm_compute in ("<<<M178>>>" ++ check (runes_of_ascii "packet // c
-As
-{@tag( 42
-    )
-    repeat Logon	uint8x
-// " ++ [128512]%N ++ runes_of_ascii " emoji
-//
-``, repeat int32
-    x_y_z ,char[7 // trailing space 
-]	pack , repeat string crc
-/// triple
-// c
-`// not a comment`
-, @calculatedFrom(
-    ""`tick`""
-    ) @tag( 1 )match
-    // @lengthOf(
-    chars as
-MetaDataX { 4294967296 : // @lengthOf(
-T ,
-} /// triple
+    // c21
+n
+    // c22
+, // c23a
+  // c23b
+char[ // c24a
+  // c24b
+5
+    // c25
+] // c26
+d // c27
+, // c28a
+  // c28b
+} // c29a
+  // c29b
+root packet R // c32
+{ // c33a
+  // c33b
+Q
+    // c34
 ,
+    // c35
+zchar[
+    // c36
+8 // c37a
+  // c37b
+] top // c39a
+  // c39b
+, // c40a
+  // c40b
+repeat // c41
+zchar[ // c42a
+  // c42b
+2 ] // c44
+zs , // c46
+} // c47
+")).
+Eval vm_compute in ("<<<M1615>>>" ++ check (runes_of_ascii "MetaData Pad {
+    u32 u128 `doc`,
+    char[] len `a\`,
+    Header tag,
+    u8 repeatCount `tab	here`,/// triple
+    Pad int,
 }
-")).
-Eval vm_compute in ("<<<M57>>>" ++ check (runes_of_ascii "packet	tag { }
-packet falsey
-    { string charz @lengthOf(
-    zchar ) ,
-string // trailing space 
-u @calculatedFrom( """ ++ [233]%N ++ runes_of_ascii "t" ++ [233]%N ++ runes_of_ascii """	) `// not a comment`
-, @leftPad( '0' )
-char[] leftPad @calculatedFrom(
-    ""a	b"")`// not a comment` , @calculatedFrom(
-    ""`tick`"" )
-    @lengthOf(roots
-) repeat MetaDataX
-, }
 
-")).
-Eval vm_compute in ("<<<M1847>>>" ++ check (runes_of_ascii "
+packet len {
+    //x
+    /// triple
+    As {
+        pack _x `
+        `,
+        asx {
+            //
+            string calculatedFrom @lengthOf(MetaDataX),
+            stringy u8x,
+            char[255] MetaDataX @calculatedFrom(""""),
+        },
+        calculatedFrom {
+            string_ len,
+        },
+        Header @lengthOf(charz),
+    },
+}
 
-  options {
-
-    LittleEndian // c2a
-	// c2b
-= 	 // c3
-		true 
-	    // c4
-;}  root
-
-// c7
-  packet P// c9a
-	// c9b
-  {	repeat
-
-char// c12a
-	// c12b
-
-cs // c13a
-    // c13b
-, 	 // c14a
-	  // c14b
-		u8 
-	    // c15
-	  x 
-// c16
-	,  // c17
-
-} 
-    // c18
-")).
-Eval vm_compute in ("<<<M1747>>>" ++ check (runes_of_ascii "packet metadata {
-    int32 calculatedFrom,
+// " ++ [27880; 37322]%N ++ runes_of_ascii "
+// " ++ [128512]%N ++ runes_of_ascii " emoji
+options {
+    // c
+    // a // b
 }
 
 options {
+    packetx = ""`tick`"";/// triple
+    i64_ = ' ';
+}")).
+Eval vm_compute in ("<<<M1742>>>" ++ check (runes_of_ascii "packet x {
+    @lengthOf(options1)
+    uint8 MetaDataX `// not a comment`,
+    packetx,
+    @tag(42)
+    _x @calculatedFrom(""abc"") `" ++ [28040; 24687; 31867; 22411]%N ++ runes_of_ascii "`,
+    @lengthOf(stringy)
+    string trueish `
+    `,
+    o stringy `{ , }`,
+    zchar[007] Logon,// 50% %s
+    @rightPad('\x00')
+    repeat lengthOf {
+        char[65535] u128,
+        int8 A,
+        body {
+            match x as options1 {
+                7 : roots,
+                // " ++ [128512]%N ++ runes_of_ascii " emoji
+                ""CRC32"" : i8i8,
+            },
+        },
+    },
 }
 
-options {
-    u128 = '\x00';
-    string_ = ""abc"";
+//	t
+packet As {
+}// @lengthOf(")).
+Eval vm_compute in ("<<<M187>>>" ++ check (runes_of_ascii "  packet matchKey
+    { @tag( 4294967296) lengthOf`{ , }`
+, //x
+repeat BodyLength u8x
+    ,  @tag(  007 )
+    // packet A { u8 x, }
+    match o as int	{ [ /// triple
+""a\""b""
+]: Header , } ,@tag( // @lengthOf(
+1 )repeat /// triple
+u128
+    // @lengthOf(
+    {
+    repeat
+    metadata
+float	`
+` , } //
+, @calculatedFrom(
+""""
+    )@tag( 4294967296
+    // a // b
+    ) @tag(  7 ) i64_ Logon ,
+    // " ++ [27880; 37322]%N ++ runes_of_ascii "
+    @rightPad (  '\x00' //x
+)  @calculatedFrom(
+""\" ++ [233]%N ++ runes_of_ascii """ )
+    @rightPad ( //	t
+'0' ) i32 roots ,	}")).
+Eval vm_compute in ("<<<M1813>>>" ++ check (runes_of_ascii "packet 	 // a // b
+	u8x{// trailing space 
+    repeat roots
+{ zchar[42
+	] 
+	    // 50% %s
+	// a // b
+  u 
+@lengthOf( i64_)	`line1
+line2`
+
+, f64
+    Packet ``
+	, zchar[
+
+4294967296
+    ]
+	msg_type ,}
+
+, }root
+	packet
+rootA  {
+	@calculatedFrom(
+""// no comment""
+    )
+@calculatedFrom(	// " ++ [128512]%N ++ runes_of_ascii " emoji
+    """ ++ [233]%N ++ runes_of_ascii "t" ++ [233]%N ++ runes_of_ascii """ )match
+	body
+
+    as  Foo
+	    /// triple
+
+{	10  :
+    a1
 }
+,
+@tag(
+42 )  @calculatedFrom(
+""1""
+
+) repeat 
+int64 float `u8 x,`	,
+}
+
+")).
+Eval vm_compute in ("<<<M1610>>>" ++ check (runes_of_ascii "// top
+options {
+    // c1
+}// c2
+
+MetaData packetx {
+    // c5
+    int falsey `two words`,// c9
+    int32 trueish,// c12
+    char[] u8x,// c15
+    A x `// not a comment`,// c19
+}// c20
 
 root packet i8i8 {
-    @rightPad('\x00')
-    repeat metadata {
-        string_,
-        tag @lengthOf(falsey),
-    },//x
+    // c24
+    @lengthOf(repeatCount)
+    // c27
+    @tag(1)
+    // c30
+    @calculatedFrom(""a	b"")
+    // c33
+    string stringy @calculatedFrom(""\n"") `line1
+        line2`,// c40
+    pack `100% of %d`,// c43
+}// c44")).
+Eval vm_compute in ("<<<M84>>>" ++ check (runes_of_ascii "
+options
+{T = """ ++ [28040; 24687]%N ++ runes_of_ascii """ ; string_
+// @lengthOf(
+// 50% %s
+=
+false; f32a
+    = 0123456789 ; Z9_ = 255} MetaData
+chars // " ++ [27880; 37322]%N ++ runes_of_ascii "
+{ float32	charz
+    `{ , }` ,// @lengthOf(
+zchar[
+    1
+] u8x`100% of %d`
+, uint16 asx `two words`
+,
+    char[ 4294967296 ]	Header
+    , i32 Logon , char[
+0123456789 ]// c
+crc, } packet /// triple
+options1 { falsey	`crlf
+line`
+,
+// `tick` ""quote"" 'q'
+/// triple
 }")).
-Eval vm_compute in ("<<<M1952>>>" ++ check (runes_of_ascii "
-MetaData// a // b
-  o  {
-    string Foo
+Eval vm_compute in ("<<<M1360>>>" ++ check (runes_of_ascii "options {
+    LittleEndian = true;
+    StringPrefixLenType = u16;
+    ArrayPrefixLenType = u16;
+    FixedStringPadFromLeft = true;
+    FixedStringPadChar = '0';
+}
+packet Leg {
+    u16 Flags,
+    u8 price,
+}
+packet Quote {
+    uint16 count,
+    InNote89 {
+        repeat Leg,
+    },
+}
+root packet Ack {
+    char[3] price,
+    u64 sym,
+    zchar[1] Tail,
+}
+")).
+Eval vm_compute in ("<<<M1329>>>" ++ check (runes_of_ascii "// top
+packet
+    // c0
+FooBar // c1
+{
+    // c2
+u8 // c3a
+  // c3b
+a
+    // c4
+, // c5
+}
+    // c6
+packet // c7
+foo_bar // c8a
+  // c8b
+{ // c9
+u16 b // c11a
+  // c11b
+, // c12a
+  // c12b
+}
+    // c13
+root
+    // c14
+packet
+    // c15
+R // c16
+{ FooBar // c18
+, // c19a
+  // c19b
+foo_bar // c20
+, // c21
+} // c22
+")).
+Eval vm_compute in ("<<<M1927>>>" ++ check (runes_of_ascii "
+options{
+
+LittleEndian =
+    true
+;
+} packet 
+Sub {
+
+    u8 a ,
+    u16 SubSum
+@calculatedFrom(
+""CRC16""
+),} root
+    packet 
+Frame
+
+{u16 MsgType
 	,
-	}	MetaData
 
-    msg_type
-    { Header
+u16
 
-    len `" ++ [28040; 24687; 31867; 22411]%N ++ runes_of_ascii "` ,} options
-    {tag
+BodyLen@lengthOf( 
+Body
+	) 
+,
 
-    = 
-'0';
-    o  =
+    Sub  Body
+	,
+    string
+note
 
-    ""CRC32"";
+, u16
+Checksum
+	@calculatedFrom(
 
-    Logon=  ""`tick`""
-
-; 	 // a // b
-}
-")).
-Eval vm_compute in ("<<<M1541>>>" ++ check (runes_of_ascii "
-MetaData
-
-msg_type
-{}root	packet
-A
-    {
-repeat	i32
-
-leftPad
-	`it's` 
-, 
-        //x
-  	}root packet
-
-    a1
-{
-
-    char[
+""CRC16""	) 
+,	u8 tail	,  }")).
+Eval vm_compute in ("<<<M1877>>>" ++ check (runes_of_ascii "packet rootA {
+    match BodyLength as A {
+        42 : leftPad,
+        1 : u8x,
+        [10, """ ++ [128512]%N ++ runes_of_ascii """] : i8i8,
+        7 : u8x,
+        007 : trueish,
         // c
-  255 ]falsey // @lengthOf(
-
-	, 
-}
-
-")).
-Eval vm_compute in ("<<<M336>>>" ++ check (runes_of_ascii "
-packet msg_type
-{
-    zchar[ 65535
-    /// triple
-    ]stringy // `tick` ""quote"" 'q'
-@calculatedFrom( """ ++ [233]%N ++ runes_of_ascii "t" ++ [233]%N ++ runes_of_ascii """ )
-,@tag( 0
-) repeat i64_,
-}
+    },
+    o uint8x,
+    repeat zchar[7] pack,
+    string x_y_z @lengthOf(charz) `
+        `,
+}// c")).
+Eval vm_compute in ("<<<M439>>>" ++ check (runes_of_ascii "packet
+    asx { @calculatedFrom(
+""""  ) @tag( 255 )repeat
 // packet A { u8 x, }
-")).
-Eval vm_compute in ("<<<M537>>>" ++ check (runes_of_ascii "packet uint8x
-{ match pack
-    as msg_type	{
-    0123456789 :	float
-}
+// trailing space 
+`tab	here` u8x
 ,
-} packet //	t
-a1
-    { } o'\x01'ptions {packetx
-    = '\x00'	; u128= ""a	b""  ; }
-")).
-Eval vm_compute in ("<<<M451>>>" ++ check (runes_of_ascii "packet uint8x
-{ match pack
-    as msg_type	{
-    0123456789 :	float
-}
-, ,
-} packet //	t
-a1
-    { } options {packetx
-    = '\x00'	; u128= ""a	b""  ; }
-")).
-Eval vm_compute in ("<<<M275>>>" ++ check (runes_of_ascii "MetaData
-stringy { zchar[10 ] crc,  }
-    packet u128
-{ repeat uint16  BodyLength `// not a comment`, @lengthOf( falsey ) _x ,
-char[ 42 ]  i8i8	, }
-
-")).
-Eval vm_compute in ("<<<M532>>>" ++ check (runes_of_ascii "packet uint8x
-{ match pack
-    as msg_type	{
-    0123456789 :	float
-}
+@tag(
+    //
+    007 )
+    @tag( 0
+    /// triple
+    ) @tag( 1) u
+    @lengthOf( T ),
+// `tick` ""quote"" 'q'
+//x
+} // " ++ [128512]%N ++ runes_of_ascii " emoji")).
+Eval vm_compute in ("<<<M414>>>" ++ check (runes_of_ascii "packet
+    asx { @calculatedFrom(
+""""  i8 @tag( 255 )repeat
+// packet A { u8 x, }
+// trailing space 
+int16 u8x
 ,
-} packet //	t
-a1
-    { } options {packetx
-    = '\x00'	; u128= ""a	b""  ; )
-")).
-Eval vm_compute in ("<<<M394>>>" ++ check (runes_of_ascii "u32 uint8x
-{ match pack
-    as msg_type	{
-    0123456789 :	float
-}
+@tag(
+    //
+    007 )
+    @tag( 0
+    /// triple
+    ) @tag( 1) u
+    @lengthOf( T ),
+// `tick` ""quote"" 'q'
+//x
+} // " ++ [128512]%N ++ runes_of_ascii " emoji")).
+Eval vm_compute in ("<<<M463>>>" ++ check (runes_of_ascii "packet
+    asx { @calculatedFrom(
+""""  ) @tag( 255 )repeat
+// packet A { u8 x, }
+// trailing space 
+int16 u8x
 ,
-} packet //	t
-a1
-    { } options {packetx
-    = '\x00'	; u128= ""a	b""  ; }
+@tag(
+    //
+    007 @tag(
+    ) 0
+    /// triple
+    ) @tag( 1) u
+    @lengthOf( T ),
+// `tick` ""quote"" 'q'
+//x
+} // " ++ [128512]%N ++ runes_of_ascii " emoji")).
+Eval vm_compute in ("<<<M511>>>" ++ check (runes_of_ascii "packet
+    asx { @calculatedFrom(
+""""  ) @tag( 255 )repeat
+// packet A { u8 x, }
+// trailing space 
+int16 u8x
+,
+@tag(
+    //
+    007 )
+    @tag( 0
+    /// triple
+    ) @tag( 1) u
+    @lengthOf( T ,
+// `tick` ""quote"" 'q'
+//x
+} // " ++ [128512]%N ++ runes_of_ascii " emoji")).
+Eval vm_compute in ("<<<M1314>>>" ++ check (runes_of_ascii "// top
+packet
+    // c0
+order_item // c1
+{ // c2a
+  // c2b
+u8 // c3a
+  // c3b
+a // c4a
+  // c4b
+, // c5
+} root packet new_order {
+    // c10
+order_item // c11
+, // c12
+u8 // c13a
+  // c13b
+x
+    // c14
+, } // c16a
+  // c16b
 ")).
-Eval vm_compute in ("<<<M1472>>>" ++ check (runes_of_ascii "MetaData leftPad
-    // c
-      {	chars
-MetaDataX
+Eval vm_compute in ("<<<M284>>>" ++ check (runes_of_ascii "packet roots {
+f64	u @calculatedFrom( ""a\\"" ) , @tag( 1	) zchar[ 0
+    ]	stringy @lengthOf( u ) //	t
+,} MetaData
+    body
+    // trailing space 
+    {	BodyLength tag	,
+u32 MetaDataX , // @lengthOf(
+}")).
+Eval vm_compute in ("<<<M1603>>>" ++ check (runes_of_ascii "packet A {
+    Inner {
+        u8 x `a
+                
+                b`,
+        Deep {
+            u8 y `a
+                        
+                        b`,
+        },
+    },
+}")).
+Eval vm_compute in ("<<<M1630>>>" ++ check (runes_of_ascii "
 
-,	}packet repeatCount  {
+  MetaData
 
-    char[  255	] 
-uint8x
-	`" ++ [233]%N ++ runes_of_ascii "` 
+crc 
+      // " ++ [128512]%N ++ runes_of_ascii " emoji
+  { packetx	repeatCount, f32a
+
+As	//x
+	`line1
+line2`	,
+    crc
+len `line1
+line2`
+	,
+zchar[
+0123456789 
+]uint8x , zchar[0
+
+    ] As ,} ")).
+Eval vm_compute in ("<<<M701>>>" ++ check (runes_of_ascii "MetaData u
+    { } MetaData o
+{ float uint8x
+`100% of %d` ,repeatCount u8x, string_ leftPad
+, i32
+    Foo , int64 x `two words` , calculatedFrom
+stringy `a\` ,
+'1'}
+")).
+Eval vm_compute in ("<<<M703>>>" ++ check (runes_of_ascii "MetaData u
+    { } MetaData o
+{ float uint8x
+`100% of %d` ,repeatCount u8x, string_ leftPad
+, i32
+    Foo , int64 x `two wor`ds` , calculatedFrom
+stringy `a\` ,
+}
+")).
+Eval vm_compute in ("<<<M648>>>" ++ check (runes_of_ascii "MetaData u
+    { } MetaData o
+{ float uint8x
+`100% of %d` ,repeatCount u8x, string_ leftPad
+, i32
+    Foo , x int64 `two words` , calculatedFrom
+stringy `a\` ,
+}
+")).
+Eval vm_compute in ("<<<M1864>>>" ++ check (runes_of_ascii "packet A {
+    match k as n {
+        [
+            1, 22, ""c c"", 4, 5,
+            ""f"", 7, 8, ""i"", 10,
+            11, ""l""
+        ] : B,
+        2 : C,
+    },
+}")).
+Eval vm_compute in ("<<<M566>>>" ++ check (runes_of_ascii "MetaData u
+    { }  o
+{ float uint8x
+`100% of %d` ,repeatCount u8x, string_ leftPad
+, i32
+    Foo , int64 x `two words` , calculatedFrom
+stringy `a\` ,
+}
+")).
+Eval vm_compute in ("<<<M1738>>>" ++ check (runes_of_ascii "MetaData
+	uint8x{	char
+msg_type `two words` ,char[3
+    ]
+	chars
+	`say ""hi""` ,
+	zchar[
+    007]  zchar
+	, 
+    // " ++ [128512]%N ++ runes_of_ascii " emoji
+	}// `tick` ""quote"" 'q'
+")).
+Eval vm_compute in ("<<<M470>>>" ++ check (runes_of_ascii "packet
+    asx { @calculatedFrom(
+""""  ) @tag( 255 )repeat
+// packet A { u8 x, }
+// trailing space 
+int16 u8x
+,
+@tag(
+    //
+    007 )")).
+Eval vm_compute in ("<<<M1669>>>" ++ check (runes_of_ascii "packet
+A {
+
+match
+	k
+
+as  n
+	{[ 
+""a""  , 
+""bb""
+,
+    ""c c""
+, ""d"" ,
+    ""e""
+, ""f""
+,""g""
+	,
+	""h""  ]
+    :
+	B 2  :
+    C
+    }
 , 
-} MetaData
-pack{
-As 
-Foo,
-    }")).
-Eval vm_compute in ("<<<M1288>>>" ++ check (runes_of_ascii "// top
+} ")).
+Eval vm_compute in ("<<<M1330>>>" ++ check (runes_of_ascii "  packet FooBar
+    {
+	u8
+a,
+
+}
+
+    packet  foo_bar
+{
+	u16 b,
+}
+
+    root
+    packet 
+R
+
+{ FooBar
+,
+
+foo_bar
+	, }
+")).
+Eval vm_compute in ("<<<M1201>>>" ++ check (runes_of_ascii "// c
+options { } options { MetaDataX = char ; } MetaData Pad { i8 metadata , string stringy , int8 As `{ , }` , }")).
+Eval vm_compute in ("<<<M1234>>>" ++ check (runes_of_ascii "options { } options { MetaDataX = char ; } MetaData Pad { i8 metadata ,
+// c
+string stringy , int8 As `{ , }` , }")).
+Eval vm_compute in ("<<<M450>>>" ++ check (runes_of_ascii "packet
+    asx { @calculatedFrom(
+""""  ) @tag( 255 )repeat
+// packet A { u8 x, }
+// trailing space 
+int16 u8x")).
+Eval vm_compute in ("<<<M910>>>" ++ check (runes_of_ascii "packet A {
+  match k as n {
+    [1, 22, ""c c"", 4, 5, ""f"", 7, 8, ""i"", 10, 11, ""l""] : B,
+    2 : C
+  },
+}")).
+Eval vm_compute in ("<<<M1682>>>" ++ check (runes_of_ascii "
+packet A
+
+    { match
+
+    k as
+    n{
+[
+1 ,
+	22 ,
+    007 
+,	4 
+, 5 ]
+	:
+B
+,
+
+2	:
+C
+}
+,	}
+
+")).
+Eval vm_compute in ("<<<M1803>>>" ++ check (runes_of_ascii "packet A {
+    match k as n {
+        [""a"", ""bb"", ""c c"", ""d"", ""e""] : B,
+        2 : C,
+    },
+}")).
+Eval vm_compute in ("<<<M856>>>" ++ check (runes_of_ascii "packet A {
+  match k as n {
+    [""a"", 22, ""c c"", 4, ""e"", 66, ""g"", 8] : B,
+    2 : C
+  },
+}")).
+Eval vm_compute in ("<<<M1593>>>" ++ check (runes_of_ascii "packet A {
+    match k as n {
+        [""a"", 22, ""c c"", 4] : B,
+        2 : C,
+    },
+}")).
+Eval vm_compute in ("<<<M830>>>" ++ check (runes_of_ascii "packet A {
+  match k as n {
+    [""a"", 22, ""c c"", 4, ""e"", 66] : B,
+    2 : C
+  },
+}")).
+Eval vm_compute in ("<<<M817>>>" ++ check (runes_of_ascii "packet A {
+  match k as n {
+    [""a"", 22, ""c c"", 4, ""e""] : B,
+    2 : C
+  },
+}")).
+Eval vm_compute in ("<<<M1140>>>" ++ check (runes_of_ascii "// top
 root
     // c0
-packet P
-    // c2
-{ // c3a
-  // c3b
-repeat // c4
-string // c5
-ss , // c7
-repeat u16 ns ,
-    // c11
-} // c12a
-  // c12b
+packet // c1
+a1 // c2a
+  // c2b
+{ } // c4a
+  // c4b
 ")).
-Eval vm_compute in ("<<<M61>>>" ++ check (runes_of_ascii "packet
-    i64_ { }
-MetaData uint8x {Packet tag , u8	repeatCount
-, x_y_z
-_x `" ++ [233]%N ++ runes_of_ascii "`
-    , zchar[
-    42
-    ]
-    crc
-`a\` ,
-} options	{ }")).
-Eval vm_compute in ("<<<M1785>>>" ++ check (runes_of_ascii "
-packet B{
-
-    u8
-    a 
-,
-    } root
-packet P{
-u8
-K
-	,u8
-L @lengthOf( Body
-    ) 
-, match  K as
-
-Body
-
-{
-    1 : 
-B	,}
-,
+Eval vm_compute in ("<<<M795>>>" ++ check (runes_of_ascii "packet A {
+  match k as n {
+    [""a"", ""bb"", 007] : B,
+    2 : C
+  },
+}")).
+Eval vm_compute in ("<<<M1301>>>" ++ check (runes_of_ascii "root packet P {
+    u8 s_u8,
+    repeat u8 r_u8,
+    u16 b_len,
 }
 ")).
-Eval vm_compute in ("<<<M223>>>" ++ check (runes_of_ascii "packet  u { repeat
-    // " ++ [128512]%N ++ runes_of_ascii " emoji
-    A , @lengthOf( lengthOf
-)
-    repeat
-    i64
-i64_
-, //
-zchar[
-3// a // b
-] body , }
-")).
-Eval vm_compute in ("<<<M1143>>>" ++ check (runes_of_ascii "MetaData // c
-leftPad { chars MetaDataX , } packet repeatCount { char[ 255 ] uint8x `" ++ [233]%N ++ runes_of_ascii "` , } MetaData pack { As Foo , }")).
-Eval vm_compute in ("<<<M1175>>>" ++ check (runes_of_ascii "MetaData leftPad { chars MetaDataX , } packet repeatCount { char[ 255 ] uint8x `" ++ [233]%N ++ runes_of_ascii "` , } // c
-MetaData pack { As Foo , }")).
-Eval vm_compute in ("<<<M1485>>>" ++ check (runes_of_ascii "packet A {
-    B b `a
-        
-        b`,
-    B `a
-        
-        b`,
-    repeat B bs `a
-        
-        b`,
+Eval vm_compute in ("<<<M605>>>" ++ check (runes_of_ascii "MetaData u
+    { } MetaData o
+{ float uint8x
+`100% of %d` ,")).
+Eval vm_compute in ("<<<M1445>>>" ++ check (runes_of_ascii "root packet A {
+    u8 x `a
+            b
+          c`,
 }")).
-Eval vm_compute in ("<<<M881>>>" ++ check (runes_of_ascii "packet A {
-  match k as n {
-    [""a"", ""bb"", ""c c"", ""d"", ""e"", ""f"", ""g"", ""h"", ""i"", ""j""] : B
-    2 : C
-  },
-}")).
-Eval vm_compute in ("<<<M888>>>" ++ check (runes_of_ascii "packet A {
-  match k as n {
-    [""a"", ""bb"", 007, ""d"", ""e"", 66, ""g"", ""h"", 9, ""j""] : B,
-    2 : C
-  },
-}")).
-Eval vm_compute in ("<<<M882>>>" ++ check (runes_of_ascii "packet A {
-  match k as n {
-    [1, ""bb"", 007, ""d"", 5, ""f"", 7, ""h"", 9, ""j""] : B,
-    2 : C
-  },
-}")).
-Eval vm_compute in ("<<<M389>>>" ++ check (runes_of_ascii "root packet SimpleMessage {
-    uint16 MsgType `" ++ [28040; 24687; 31867; 22411]%N ++ runes_of_ascii "`,
-    string JsonBody `Json" ++ [23383; 31526; 20018; 28040; 24687; 20307]%N ++ runes_of_ascii "`,
-}")).
-Eval vm_compute in ("<<<M618>>>" ++ check (runes_of_ascii "
-packet
-    asx {match u128 as lengthOf
-{
-//	t
-// `tick` ""quote"" 'q'
-255 : x ,
-    } , ,	}")).
-Eval vm_compute in ("<<<M579>>>" ++ check (runes_of_ascii "
-packet
-    asx {match u128 lengthOf as
-{
-//	t
-// `tick` ""quote"" 'q'
-255 : x ,
-    } ,	}")).
-Eval vm_compute in ("<<<M595>>>" ++ check (runes_of_ascii "
-packet
-    asx {match u128 as lengthOf
-{
-//	t
-// `tick` ""quote"" 'q'
-: : x ,
-    } ,	}")).
-Eval vm_compute in ("<<<M836>>>" ++ check (runes_of_ascii "packet A {
-  match k as n {
-    [""a"", ""bb"", 007, ""d"", ""e"", 66] : B,
-    2 : C
-  },
-}")).
-Eval vm_compute in ("<<<M823>>>" ++ check (runes_of_ascii "packet A {
-  match k as n {
-    [""a"", ""bb"", 007, ""d"", ""e""] : B,
-    2 : C
-  },
-}")).
-Eval vm_compute in ("<<<M1563>>>" ++ check (runes_of_ascii "  packet
-    body
-	{
-
-    i32
-	f32a 	 // c
-	`{ , }` , 
-}
-    options { 
-} ")).
-Eval vm_compute in ("<<<M1874>>>" ++ check (runes_of_ascii "// top
-    MetaData 
-    // c0
-
-tag
-        // c1
-  {	// c2
-} 
-
-// c3
-")).
-Eval vm_compute in ("<<<M1087>>>" ++ check (runes_of_ascii "packet A { match k as n { [ // a
- 1 // b
- , // c
- 2 ] // d
- : B }, }")).
-Eval vm_compute in ("<<<M784>>>" ++ check (runes_of_ascii "packet A {
-  match k as n {
-    [""a"", 22] : B,
-    2 : C
-  },
-}")).
-Eval vm_compute in ("<<<M812>>>" ++ check (runes_of_ascii "packet A { Inner { match k as n { [1,22,007,4] : B, }, }, }")).
-Eval vm_compute in ("<<<M1607>>>" ++ check (runes_of_ascii "packet body {
-    i32 f32a `{ , }`,
-}
-
-options {
-}// c")).
-Eval vm_compute in ("<<<M1215>>>" ++ check (runes_of_ascii "packet body { i32 f32a `{ , }` , } options // c
-{ }")).
-Eval vm_compute in ("<<<M434>>>" ++ check (runes_of_ascii "packet uint8x
-{ match pack
-    as msg_type	{")).
-Eval vm_compute in ("<<<M1480>>>" ++ check (runes_of_ascii "MetaData lengthOf {
-    Header o `doc`,
-}")).
-Eval vm_compute in ("<<<M1740>>>" ++ check (runes_of_ascii "
-packet A  {  u8
-
+Eval vm_compute in ("<<<M1957>>>" ++ check (runes_of_ascii "
+packet A {
+    u8 
 x
-	`x
-`
-,
-    }
+,// a
+      // b
+u8
 
-")).
-Eval vm_compute in ("<<<M1043>>>" ++ check (runes_of_ascii "packet A {
- u8 x `d 	`, // c 	
-}")).
-Eval vm_compute in ("<<<M1008>>>" ++ check (runes_of_ascii "packet A {
- u8 x `d" ++ [8202]%N ++ runes_of_ascii "`, // c" ++ [8202]%N ++ runes_of_ascii "
-}")).
-Eval vm_compute in ("<<<M1065>>>" ++ check (runes_of_ascii "packet A {
-}// a// b// c
-")).
-Eval vm_compute in ("<<<M286>>>" ++ check (runes_of_ascii " // `tick` ""quote"" 'q'")).
-Eval vm_compute in ("<<<M59>>>" ++ check (runes_of_ascii "packet
-int {
+y,
 }
-//	t
 ")).
-Eval vm_compute in ("<<<M981>>>" ++ check (runes_of_ascii "packet A {
+Eval vm_compute in ("<<<M1865>>>" ++ check (runes_of_ascii "MetaData i8i8 {
+    // a // b
+    int8 As,
+}")).
+Eval vm_compute in ("<<<M74>>>" ++ check (runes_of_ascii "packet
+// 50% %s
+//
+len { uint8x A , }")).
+Eval vm_compute in ("<<<M1185>>>" ++ check (runes_of_ascii "options { // c
+A = ""// no comment"" }")).
+Eval vm_compute in ("<<<M1928>>>" ++ check (runes_of_ascii "packet A {
+    u8 x `d x`,// c x
+}")).
+Eval vm_compute in ("<<<M957>>>" ++ check (runes_of_ascii "packet A {
+    u8 x `tab
+	x`,
+}")).
+Eval vm_compute in ("<<<M174>>>" ++ check (runes_of_ascii "packet T  { string pack , }
+")).
+Eval vm_compute in ("<<<M220>>>" ++ check (runes_of_ascii "packet Packet
+    { } 	 ")).
+Eval vm_compute in ("<<<M1520>>>" ++ check (runes_of_ascii "// c" ++ [6158]%N ++ runes_of_ascii "
+  packet  A {	}
+")).
+Eval vm_compute in ("<<<M1010>>>" ++ check (runes_of_ascii "packet A {
 }
-// c" ++ [12288]%N)).
-Eval vm_compute in ("<<<M1074>>>" ++ check (runes_of_ascii "MetaData M {
-}// c")).
-Eval vm_compute in ("<<<M1229>>>" ++ check (runes_of_ascii "packet x
+// c" ++ [133]%N)).
+Eval vm_compute in ("<<<M1174>>>" ++ check (runes_of_ascii "packet x { }
 // c
-{ }")).
-Eval vm_compute in ("<<<M1548>>>" ++ check (runes_of_ascii "packet x {
-}")).
-Eval vm_compute in ("<<<M1025>>>" ++ check (runes_of_ascii "// c" ++ [8287]%N)).
+")).
+Eval vm_compute in ("<<<M212>>>" ++ check (runes_of_ascii "options {
+    }
+")).
+Eval vm_compute in ("<<<M555>>>" ++ check (runes_of_ascii "MetaData")).
+Eval vm_compute in ("<<<M734>>>" ++ check (runes_of_ascii " " ++ [12]%N ++ runes_of_ascii " ")).
